@@ -256,7 +256,7 @@ def run(ctx, report: Report) -> None:
                      'also splits on NBSP, U+2003, VT ...): ".a" and [class~=a] disagree')
 
     # ---- R9 (the whole pipeline by interpretation, bounded) --------------------------------------------------------------
-    r9 = report.rule('C01-R9', 'selectors of a pool designate what the Selectors specification says, on a reference tree (whole pipeline; bounded)', floor=251)
+    r9 = report.rule('C01-R9', 'selectors of a pool designate what the Selectors specification says, on a reference tree (whole pipeline; bounded)', floor=356)
     from .e2ematch import core_semantics_table
     core_semantics_table(ctx, r9)
 
